@@ -39,3 +39,20 @@ Theorem fc_fast_agrees_with_ns : forall c u ts n f s s' ops,
   snd (run s' (map (scale_op c) ops)) = snd (run s ops).
 Proof. exact fc_fast_agrees. Qed.
 Print Assumptions fc_fast_agrees_with_ns.
+
+(* Second tie: the C text of the four leaf functions, re-translated on this run, is the
+   model (n < 2^32 is the range of the uint32_t field; wf = cursor < n). *)
+From MV Require Import Lib.Leaf C19.ProofsGen gen.Params_C19.
+Theorem gen_check_matches_model : forall s now, wf s ->
+  gen_muggle_flow_ctl_check (arr s) (Z.of_nat (cursor s)) (tw s) now = check s now /\
+  gen_muggle_fast_flow_ctl_check (arr s) (Z.of_nat (cursor s)) (tw s) now = check s now.
+Proof. intros s now H. split; [exact (gen_check_eq s now H)|exact (gen_fast_check_eq s now H)]. Qed.
+Print Assumptions gen_check_matches_model.
+
+Theorem gen_update_matches_model : forall s now, wf s -> Z.of_nat (length (arr s)) < 2 ^ 32 ->
+  gen_muggle_flow_ctl_update (arr s) (Z.of_nat (cursor s)) (Z.of_nat (length (arr s))) now
+    = (arr (update s now), Z.of_nat (cursor (update s now))) /\
+  gen_muggle_fast_flow_ctl_update (arr s) (Z.of_nat (cursor s)) (Z.of_nat (length (arr s))) now
+    = (arr (update s now), Z.of_nat (cursor (update s now))).
+Proof. intros s now H1 H2. split; [exact (gen_update_eq s now H1 H2)|exact (gen_fast_update_eq s now H1 H2)]. Qed.
+Print Assumptions gen_update_matches_model.
